@@ -19,12 +19,14 @@ TRTxn ==
   /\ LET sc == Ev.args.script  o == Ev.res  cfg == sc.cfg IN
      /\ Chk("C03.a removal that reported an error changed the triangulation", o.kind = "Err" => ~o.changed /\ o.has)
      /\ Chk("C06.a successful removal left the vertex in place", o.kind = "Ok" => ~o.has /\ o.changed)
+     /\ Chk("C11.a removal edited the triangulation (rolled back or not) and a hull taken before still answers",
+            (o.sites # <<>> \/ o.changed) => o.hull_stale /\ o.gen_changed)
      /\ Chk("MODEL.remove_vertex is not the RemoveTxn run under this script",
             \E x \in {"ok", "fail", "keep"} :
               LET cs == IF x = "keep" THEN sc.choices ELSE WithLast(sc.choices, x)
                   p  == RRun(cfg, RInit, cs)
               IN  /\ p.pc = "done" /\ p.outcome = o.kind /\ p.has = o.has /\ (p.gen # 0) = o.changed
-                  /\ p.sites = o.sites)
+                  /\ p.sites = o.sites /\ (p.bumps > 0) = o.gen_changed)
 TraceNext == TRTxn \/ IsEvent("Reset")
 TraceSpec == TInit /\ [][TraceNext]_l
 TraceAccepted ==
